@@ -103,13 +103,17 @@ class Executor:
                 raise Unsupported("time budget exceeded (path explosion) in " + fn["short"])
             if fr.ip == 0:
                 loops = ir.loops(fn)
+                skip_phis = False
                 if fr.blk in loops:
                     r = self.at_loop_head(fr, st, loops[fr.blk])
                     if r is not None:
                         return r
+                    skip_phis = fr.ip > 0      # the loop was cut: phis already hold havocked values
                 # phis are evaluated simultaneously
                 newv = {}
                 n = 0
+                if skip_phis:
+                    instrs = []
                 for ins in instrs:
                     if ins["op"] != "Phi":
                         break
@@ -117,7 +121,9 @@ class Executor:
                     newv[ins["name"]] = self.operand(fr, st, ins["args"][idx])
                     n += 1
                 fr.env.update(newv)
-                fr.ip = n
+                if not skip_phis:
+                    fr.ip = n
+                instrs = blk["instrs"]
             while fr.ip < len(instrs):
                 ins = instrs[fr.ip]
                 fr.ip += 1
